@@ -747,6 +747,67 @@ def r20_16(run, model):
     run.floor("index lookups in upward walks", n, 2)
 
 
+def r20_19(run, model):
+    run.rule("R20.19", "every node the lowering builds is recorded under a syntax pointer of its own place: a node built once per element of "
+                       "a loop (the fields of a struct pattern or literal, the arguments of a call) does not take the pointer variable of "
+                       "the enclosing node, declared outside that loop - two nodes under one pointer make the hover on the inner one "
+                       "answer for the outer (the binder `x` of `Point { x, y }` would show `Point`)")
+    LOWER = "crates/ast/src/lower.rs"
+    n = 0
+    for f in model.fns(LOWER):
+        if f.body is None:
+            continue
+        par = None
+        for st in S.find(f.body, "Struct"):
+            fl = [x for x in st["fields"] if x["name"] == "astptr"]
+            if not fl:
+                continue
+            n += 1
+            t = S.norm_ws(run.facts.text(LOWER, fl[0]["expr"]["sp"]))
+            if not re.fullmatch(r"\w+(\.clone\(\))?", t):
+                continue
+            par = par or S.Parents(f.body)
+            loops = [a for a in par.ancestors(st) if a["k"] in ("For", "While", "Closure", "Loop")]
+            if not loops:
+                continue
+            var = t.split(".")[0]
+            inside = any(var in S.pat_bindings(l["pat"]) for l in S.find(loops[0], "Local")) or \
+                (loops[0]["k"] == "For" and var in S.pat_bindings(loops[0]["pat"]))
+            run.ob("R20.19", f"{f.name}|{st['segs'][-1]} built per element has a pointer of its own", inside, site(LOWER, st["sp"]),
+                   f"astptr: `{t}`, declared {'inside' if inside else 'outside'} the loop that builds the node",
+                   witness="let Point { x, y } = p: hover on x answers `Point`, the type recorded for the struct pattern that shares the pointer")
+    run.floor("nodes built with a syntax pointer in the lowering", n, 60)
+
+
+def r20_20(run, model):
+    run.rule("R20.20", "what is offered after `N::` belongs to N: colon_colon_completions asks for the members of the namespace exactly as it "
+                       "stands before the last `::` - every call that collects the items is given that whole string, never a part of it "
+                       "(its last segment, a prefix): a retry with a shorter name offers the members of another package's or the local "
+                       "type of that name, none of which type-check when inserted")
+    f = model.fn("colon_colon_completions", QUERY)
+    callees = {g.name for g in model.fns(QUERY) if g.body is not None and any("namespace" == (p["pat"].get("name") or "") for p in g.params() if p["pat"]["k"] == "PIdent")}
+    ns = None
+    for l in S.find(f.body, "Local"):
+        if l.get("init") is not None and re.search(r"segments\[\.\.segments\.len\(\)\.saturating_sub\(1\)\]\.join\(\"::\"\)|\.join\(\"::\"\)", S.norm_ws(run.facts.text(QUERY, l["init"]["sp"]))):
+            ns = S.pat_bindings(l["pat"])[0]
+    if ns is None or not callees:
+        raise AnalysisIncomplete("colon_colon_completions: the namespace string or the item collector was not found")
+    n = 0
+    for c in S.walk(f.body):
+        if c["k"] != "Call" or S.callee_name(c) not in callees:
+            continue
+        n += 1
+        g = model.fn(S.callee_name(c), QUERY)
+        idx = [i for i, p in enumerate([p for p in g.params() if not p["self"]]) if p["pat"].get("name") == "namespace"][0]
+        t = S.norm_ws(run.facts.text(QUERY, c["args"][idx]["sp"]))
+        ok = t in (ns, "&" + ns, ns + ".as_str()", "&" + ns + ".clone()")
+        run.ob("R20.20", f"colon_colon_completions|{S.callee_name(c)} is asked about the namespace as written", ok, site(QUERY, c["sp"]),
+               f"namespace argument `{t}`; the text before the last `::` is `{ns}`",
+               witness="Lib::Color:: in a buffer whose package has its own enum Color (and Lib has none): the local variants are offered as "
+                       "members of Lib::Color")
+    run.floor("item lookups in colon_colon_completions", n, 1)
+
+
 def r20_15(run, model):
     from rules import c04 as _c04
     _c04.r04_7(run, model, only_files=("crates/compiler/src/query.rs", "crates/wasm-app/src/lib.rs"))
@@ -769,6 +830,8 @@ def run(run, model):
     run.try_rule(r20_16, model)
     run.try_rule(r20_17, model)
     run.try_rule(r20_18, model)
+    run.try_rule(r20_19, model)
+    run.try_rule(r20_20, model)
     from rules import c07
     run.rule("R20.7", "the occurs check looks into every component of every type former (shared with C07 R07.2, restricted to typer::unify): a "
                       "missed component lets a cyclic type through and the next query overflows the stack")
